@@ -1,8 +1,12 @@
 //! c10bmp: the bmp-in call site. A real bmp RouterHandler (one router
 //! connection, real BmpState) with the compiled filter installed; every frame
 //! goes through RouterHandler::process_msg; what leaves the gate is captured.
-//! Case grammar: `F bmp <prog|none>` then, per op, three tokens out:[..] upd:[..] ph:<phase>
-//!   I | T | S <peer> | U <peer> | D <peer> | R <peer> <tag> <attrs> <ann|-> <wd|->
+//! Case grammar: `F bmp <prog|none>` then, per op, four tokens out:[..] upd:[..] ph:<phase> n:<counters>
+//!   I | T | S <peer> | X <peer> | U <peer> | D <peer> | R <peer> <tag> <attrs> <ann|-> <wd|->
+//! (S = Statistics Report, X = Route Mirroring: the two per-peer message types the state machine ignores)
+//! n:<received per RFC 7854 type 0..6, dot separated>,p<processed>,i<invalid> = the per-router counters of the
+//! connection handler, read from the Prometheus text of the unit's metrics (summed over router labels): what
+//! the handler counted says whether the filter let the message through to the state machine.
 //! peers: 0 = AS65001 (4-octet AS capable), 1 = AS65002 (2-octet only), 2 = AS174 (4-octet)
 use crate::engines::c10::{self, parse_attrs, parse_filter, plist, roto_source, update_bytes};
 use crate::engines::c10rib::{payload_tok_with, show_osm_with};
@@ -52,6 +56,39 @@ fn peer_up_bytes(i: usize) -> Bytes {
     Bytes::from(v)
 }
 
+/// Route Mirroring (RFC 7854 section 4.7): common header (version 3, length, type 6), the per-peer header, one
+/// TLV (type 1 = Information, length 2, code 1 = Messages Lost). The test encoder has no writer for this type;
+/// the per-peer header octets are those the encoder writes for a Statistics Report about the same peer.
+pub fn route_mirroring_bytes(pph: &enc::PerPeerHeader) -> Bytes {
+    let stats = enc::mk_statistics_report_msg(pph);
+    assert!(stats.len() >= 48 && stats[5] == 1, "layout of the test encoder's Statistics Report");
+    let mut v = vec![3u8, 0, 0, 0, 0, 6];
+    v.extend_from_slice(&stats[6..48]);
+    v.extend_from_slice(&[0, 1, 0, 2, 0, 1]);
+    let l = (v.len() as u32).to_be_bytes();
+    v[1..5].copy_from_slice(&l);
+    Bytes::from(v)
+}
+
+/// BMP_RFC_7854_MSG_TYPE_NAMES as RFC 7854 section 4.1 lists the types (the harness's own copy)
+const TYPE_NAMES: [&str; 7] = ["Route Monitoring", "Statistics Report", "Peer Down Notification", "Peer Up Notification",
+                               "Initiation Message", "Termination Message", "Route Mirroring Message"];
+
+/// n:<received by type>,p<processed>,i<invalid> from the Prometheus text of the connection's metrics
+fn counters(text: &str) -> String {
+    let p = match super::promtext::parse(text) { Ok(p) => p, Err(e) => return format!("n:BAD:{}", e.replace(' ', "_")) };
+    let sum = |name: &str, ty: Option<&str>| -> String {
+        let mut n = 0u64;
+        for s in p.samples.iter().filter(|s| s.name == name && ty.map_or(true, |t| s.label("msg_type") == Some(t))) {
+            match s.value.parse::<u64>() { Ok(v) => n += v, Err(_) => return "?".into() }
+        }
+        n.to_string()
+    };
+    let recv: Vec<String> = TYPE_NAMES.iter().map(|t| sum("rotonda_bmp_tcp_in_num_bmp_messages_received_total", Some(t))).collect();
+    format!("n:{},p{},i{}", recv.join("."), sum("rotonda_bmp_tcp_in_num_bmp_messages_processed_total", None),
+            sum("rotonda_bmp_in_num_invalid_bmp_messages_total", None))
+}
+
 fn peer_of(reg: &Register, rid: u32, id: u32) -> String {
     if id == rid { return "r".into(); }
     match reg.get(id).and_then(|i| i.remote_asn) {
@@ -86,6 +123,7 @@ pub fn run_case(line: &str) -> String {
             "I" => enc::mk_initiation_msg("r", "d"),
             "T" => enc::mk_termination_msg(),
             "S" => enc::mk_statistics_report_msg(&pph(peer(1))),
+            "X" => route_mirroring_bytes(&pph(peer(1))),
             "U" => peer_up_bytes(peer(1)),
             "D" => enc::mk_peer_down_notification_msg(&pph(peer(1))),
             "R" => {
@@ -114,6 +152,7 @@ pub fn run_case(line: &str) -> String {
         out.push(format!("upd:[{}]", upds.join(",")));
         let ph = rt.block_on(router.phase());
         out.push(match res { Some(Ok(())) => format!("ph:{ph}"), Some(Err(e)) => format!("ph:{ph}!{}", e.replace(' ', "_")), None => "ph:unparsable".into() });
+        out.push(counters(&router.metrics_prometheus()));
     }
     out.join(" ")
 }
